@@ -10,7 +10,7 @@
      whether its schema equals the declared output schema, and how it ends
      (clean / cut inside the last message / trailing bytes);
    - sealed cursor tokens are labels 0,1,2.. in minting order; the server recovers
-     the state it sealed (oracle: [w_states]); freshness of a label is the model's
+     the state it sealed (oracle: [w_states]); freshness of a label is the smodel's
      counterpart of the random AEAD nonce;
    - a fault is a record of independent response mutations applied by the proxy.
    [fx] selects the client's parseIPCStream: true = current code (a mismatching
@@ -47,7 +47,7 @@ Definition no_fault : fault :=
 (* ---- client operations ---------------------------------------------------- *)
 Inductive cop := OpExchange (x : Z) (bad : bool) | OpNext | OpCancel | OpClose.
 
-Record input := {
+Record sinput := {
   i_exchange : bool; i_init_logs : list N; i_init : init_out; i_turns : list turn;
   i_limit : nat; i_ops : list cop; i_faults : list fault }.
 
@@ -66,7 +66,7 @@ Record post_rec := {
   p_fault : fault; p_reached : bool;
   p_sok : bool; p_serrhdr : bool; p_frames : list frame }.
 Record op_rec := { o_posts : list post_rec; o_logs : list N; o_res : result }.
-Definition obs := list op_rec.
+Definition sobs := list op_rec.
 
 (* ---- error type names ------------------------------------------------------ *)
 Definition runtime_error : bytes := Eval compute in str "RuntimeError".
@@ -103,7 +103,7 @@ Fixpoint produce (limit : nat) (ts : list turn) (pos count : nat) : list frame *
 Definition tok_tail (r : option nat) (next : nat) (call : bool) : list frame :=
   match r with Some _ => [token_frame next call] | None => [] end.
 
-Definition srv_init (i : input) (next : nat) : sresp * option nat :=
+Definition srv_init (i : sinput) (next : nat) : sresp * option nat :=
   match i_init i with
   | InitOk =>
       if i_exchange i then
@@ -117,7 +117,7 @@ Definition srv_init (i : input) (next : nat) : sresp * option nat :=
   | _ => ({| sr_ok := false; sr_errhdr := true; sr_frames := [FExc runtime_error] |}, None)
   end.
 
-Definition srv_exchange (i : input) (pos : nat) (x : Z) (next : nat) : sresp * option nat :=
+Definition srv_exchange (i : sinput) (pos : nat) (x : Z) (next : nat) : sresp * option nat :=
   let t := nth pos (i_turns i) default_turn in
   match t_act t with
   | AEmit =>
@@ -127,7 +127,7 @@ Definition srv_exchange (i : input) (pos : nat) (x : Z) (next : nat) : sresp * o
   | a => ({| sr_ok := true; sr_errhdr := true; sr_frames := [FExc (exc_type a)] |}, None)
   end.
 
-Definition srv_cont (i : input) (pos : nat) (next : nat) : sresp * option nat :=
+Definition srv_cont (i : sinput) (pos : nat) (next : nat) : sresp * option nat :=
   let '(fr, r) := produce (i_limit i) (skipn pos (i_turns i)) pos 0 in
   ({| sr_ok := true; sr_errhdr := false; sr_frames := fr ++ tok_tail r next false |}, r).
 
@@ -237,9 +237,9 @@ Record world := { w_n : nat; w_states : list nat }.
 Definition is_some {A} (o : option A) : bool := match o with Some _ => true | None => false end.
 Definition is_nil {A} (l : list A) : bool := match l with [] => true | _ => false end.
 
-Definition fault_at (i : input) (n : nat) : fault := nth n (i_faults i) no_fault.
+Definition fault_at (i : sinput) (n : nat) : fault := nth n (i_faults i) no_fault.
 
-Definition server (i : input) (w : world) (init : bool) (cur : option nat) (cancel : bool) (x : Z)
+Definition server (i : sinput) (w : world) (init : bool) (cur : option nat) (cancel : bool) (x : Z)
   : sresp * option nat :=
   let next := length (w_states w) in
   if init then srv_init i next
@@ -255,7 +255,7 @@ Definition mk_post (init : bool) (cur : option nat) (call cancel : bool) (x : Z)
 Definition empty_sresp : sresp := {| sr_ok := false; sr_errhdr := false; sr_frames := [] |}.
 
 (* one POST through the proxy *)
-Definition do_post (i : input) (w : world) (init : bool) (cur : option nat) (call cancel : bool) (x : Z)
+Definition do_post (i : sinput) (w : world) (init : bool) (cur : option nat) (call cancel : bool) (x : Z)
   : world * post_rec * (err + (bool * cbody)) :=
   let f := fault_at i (w_n w) in
   match f_net f with
@@ -278,7 +278,7 @@ Definition poison (c : cst) : cst :=
   {| c_tok := None; c_call := c_call c; c_fin := true; c_closed := c_closed c; c_pend := c_pend c |}.
 
 (* HttpClient.openStream *)
-Definition open_op (fx : bool) (i : input) (w : world) : world * option cst * op_rec :=
+Definition open_op (fx : bool) (i : sinput) (w : world) : world * option cst * op_rec :=
   let '(w', pr, v) := do_post i w true None false false 0%Z in
   match v with
   | inl e => (w', None, mk_op [pr] [] (RErr e))
@@ -302,7 +302,7 @@ Definition open_op (fx : bool) (i : input) (w : world) : world * option cst * op
   end.
 
 (* HttpClientStream.Exchange *)
-Definition exchange_op (fx : bool) (i : input) (w : world) (c : cst) (x : Z) (bad : bool)
+Definition exchange_op (fx : bool) (i : sinput) (w : world) (c : cst) (x : Z) (bad : bool)
   : world * cst * op_rec :=
   if c_closed c then (w, c, mk_op [] [] (RErr EOther))
   else if negb (i_exchange i) then (w, c, mk_op [] [] (RErr EOther))
@@ -328,7 +328,7 @@ Definition exchange_op (fx : bool) (i : input) (w : world) (c : cst) (x : Z) (ba
     end.
 
 (* HttpClientStream.Next: the for-loop, bounded by fuel (one POST per round) *)
-Fixpoint next_loop (fx : bool) (i : input) (fuel : nat) (w : world) (c : cst)
+Fixpoint next_loop (fx : bool) (i : sinput) (fuel : nat) (w : world) (c : cst)
   (ps : list post_rec) (ls : list N) : world * cst * op_rec :=
   match c_pend c with
   | it :: rest => (w, set_pend c rest, mk_op ps ls (ROk it))
@@ -357,13 +357,13 @@ Fixpoint next_loop (fx : bool) (i : input) (fuel : nat) (w : world) (c : cst)
         end
   end.
 
-Definition next_op (fx : bool) (i : input) (w : world) (c : cst) : world * cst * op_rec :=
+Definition next_op (fx : bool) (i : sinput) (w : world) (c : cst) : world * cst * op_rec :=
   if c_closed c then (w, c, mk_op [] [] (RErr EOther))
   else if i_exchange i then (w, c, mk_op [] [] (RErr EOther))
   else next_loop fx i (S (S (length (i_turns i)))) w c [] [].
 
 (* HttpClientStream.Cancel *)
-Definition cancel_op (fx : bool) (i : input) (w : world) (c : cst) : world * cst * op_rec :=
+Definition cancel_op (fx : bool) (i : sinput) (w : world) (c : cst) : world * cst * op_rec :=
   if c_closed c || c_fin c || negb (is_some (c_tok c)) then
     (w, {| c_tok := c_tok c; c_call := c_call c; c_fin := true; c_closed := c_closed c; c_pend := c_pend c |},
      mk_op [] [] RNil)
@@ -387,7 +387,7 @@ Definition close_op (w : world) (c : cst) : world * cst * op_rec :=
   (w, {| c_tok := c_tok c; c_call := c_call c; c_fin := c_fin c; c_closed := true; c_pend := [] |},
    mk_op [] [] RNil).
 
-Definition step (fx : bool) (i : input) (w : world) (c : cst) (op : cop) : world * cst * op_rec :=
+Definition step (fx : bool) (i : sinput) (w : world) (c : cst) (op : cop) : world * cst * op_rec :=
   match op with
   | OpExchange x bad => exchange_op fx i w c x bad
   | OpNext => next_op fx i w c
@@ -395,7 +395,7 @@ Definition step (fx : bool) (i : input) (w : world) (c : cst) (op : cop) : world
   | OpClose => close_op w c
   end.
 
-Fixpoint run_ops (fx : bool) (i : input) (w : world) (c : cst) (ops : list cop) : list op_rec :=
+Fixpoint run_ops (fx : bool) (i : sinput) (w : world) (c : cst) (ops : list cop) : list op_rec :=
   match ops with
   | [] => []
   | op :: rest => let '(w', c', r) := step fx i w c op in r :: run_ops fx i w' c' rest
@@ -403,14 +403,14 @@ Fixpoint run_ops (fx : bool) (i : input) (w : world) (c : cst) (ops : list cop) 
 
 Definition world0 : world := {| w_n := 0; w_states := [] |}.
 
-Definition model_gen (fx : bool) (i : input) : obs :=
+Definition model_gen (fx : bool) (i : sinput) : sobs :=
   let '(w, oc, r) := open_op fx i world0 in
   r :: match oc with Some c => run_ops fx i w c (i_ops i) | None => [] end.
 
-Definition model : input -> obs := model_gen true.
-Definition model_legacy : input -> obs := model_gen false.
+Definition smodel : sinput -> sobs := model_gen true.
+Definition smodel_legacy : sinput -> sobs := model_gen false.
 
-(* ============================ equality on obs ================================ *)
+(* ============================ equality on sobs ================================ *)
 Definition kv_eqb : kv -> kv -> bool := pair_eqb beqb beqb.
 Definition item_eqb (a b : item) : bool :=
   (fst (fst a) =? fst (fst b))%N && (snd (fst a) =? snd (fst b))%Z && list_eqb kv_eqb (snd a) (snd b).
@@ -459,7 +459,7 @@ Definition post_eqb (a b : post_rec) : bool :=
 Definition op_eqb (a b : op_rec) : bool :=
   list_eqb post_eqb (o_posts a) (o_posts b) && list_eqb N.eqb (o_logs a) (o_logs b)
   && result_eqb (o_res a) (o_res b).
-Definition obs_eqb (a b : obs) : bool := list_eqb op_eqb a b.
+Definition sobs_eqb (a b : sobs) : bool := list_eqb op_eqb a b.
 
 (* ================= the property, decided on one observation ================== *)
 (* A response reaches the client's parser unchanged *)
@@ -474,14 +474,14 @@ Definition seen (p : post_rec) : bool := transparent (p_fault p) && p_reached p.
 
 Definition cursors_of (ps : list post_rec) : list nat :=
   flat_map (fun p => if p_init p then [] else match p_cur p with Some c => [c] | None => [] end) ps.
-Definition posted_cursors (o : obs) : list nat := flat_map (fun r => cursors_of (o_posts r)) o.
+Definition posted_cursors (o : sobs) : list nat := flat_map (fun r => cursors_of (o_posts r)) o.
 
 Fixpoint nodupb (l : list nat) : bool :=
   match l with [] => true | x :: t => negb (existsb (Nat.eqb x) t) && nodupb t end.
 
 (* every continuation POST carries a cursor; only the first POST is an init *)
 Definition wf_post (p : post_rec) : bool := negb (p_init p) && is_some (p_cur p).
-Definition posts_wf (o : obs) : bool :=
+Definition posts_wf (o : sobs) : bool :=
   match o with
   | [] => false
   | r0 :: rest =>
@@ -537,7 +537,7 @@ Definition typed_post (res : result) (p : post_rec) : bool :=
                  | None => true end
   else true.
 Definition typed_one (r : op_rec) : bool := forallb (typed_post (o_res r)) (o_posts r).
-Definition typed_ok (o : obs) : bool := forallb typed_one o.
+Definition typed_ok (o : sobs) : bool := forallb typed_one o.
 
 (* an Exchange turn whose response reached the client intact returns exactly the
    server's one data batch, stripped, after delivering the server's logs *)
@@ -587,7 +587,7 @@ Fixpoint prod_ok (q : list item) (ops : list cop) (rs : list op_rec) : bool :=
   end.
 
 (* the open call *)
-Definition open_ok (i : input) (r : op_rec) : bool :=
+Definition open_ok (i : sinput) (r : op_rec) : bool :=
   match o_posts r with
   | [p] =>
       if good p then
@@ -605,12 +605,12 @@ Definition open_ok (i : input) (r : op_rec) : bool :=
 Definition rej_post (ex : bool) (res : result) (p : post_rec) : bool :=
   is_err res || transparent (p_fault p) || (lossy (p_fault p) && (negb ex || p_cancel p)).
 Definition rej_one (ex : bool) (r : op_rec) : bool := forallb (rej_post ex (o_res r)) (o_posts r).
-Definition reject_ok (i : input) (o : obs) : bool := forallb (rej_one (i_exchange i)) o.
+Definition reject_ok (i : sinput) (o : sobs) : bool := forallb (rej_one (i_exchange i)) o.
 
-Definition no_lossy (o : obs) : bool :=
+Definition no_lossy (o : sobs) : bool :=
   forallb (fun r => forallb (fun p => negb (lossy (p_fault p))) (o_posts r)) o.
 
-Definition spec_ok (i : input) (o : obs) : bool :=
+Definition sspec_ok (i : sinput) (o : sobs) : bool :=
   match o with
   | [] => false
   | r0 :: rs =>
@@ -620,3 +620,25 @@ Definition spec_ok (i : input) (o : obs) : bool :=
           then nodupb (posted_cursors o) && poison_ok (i_ops i) rs && exch_ok (i_ops i) rs
           else if no_lossy o then prod_ok (flat_map delivered (o_posts r0)) (i_ops i) rs else true)
   end.
+
+(* ===================== client histories (one HttpClient, many calls) ===================== *)
+(* Earlier calls completed successfully on the SAME HttpClient before the stream is
+   opened; each made the client accept some wire schema under its own declaration:
+   HUnary  - CallUnary u_int, declared and received {result:int64};
+   HHeader - OpenProducer prod_h with a declared header {h:int64}, drained;
+   HProducer - OpenProducer prod ({v:int64}), drained.
+   HttpClient carries no per-call state (configuration and a closed flag only), so the
+   model of the stream does not read the history at all: whether a response is
+   accepted is a function of (declared schema, wire schema, body) alone.  The schema
+   drift fault BDrift may rewrite the wire schema to ANY schema other than the
+   declared one - in particular to one the client accepted earlier for another
+   declaration (the harness does exactly that). *)
+Inductive hcall := HUnary | HHeader | HProducer.
+Record input := { i_hist : list hcall; i_in : sinput }.
+Definition obs := (list bool * sobs)%type.     (* did each earlier call succeed; the stream *)
+Definition model (i : input) : obs := (map (fun _ => true) (i_hist i), smodel (i_in i)).
+Definition model_legacy (i : input) : obs := (map (fun _ => true) (i_hist i), smodel_legacy (i_in i)).
+Definition obs_eqb (a b : obs) : bool := list_eqb Bool.eqb (fst a) (fst b) && sobs_eqb (snd a) (snd b).
+(* the earlier calls succeeded, and the stream meets the whole property whatever they were *)
+Definition spec_ok (i : input) (o : obs) : bool :=
+  forallb (fun b => b) (fst o) && (length (fst o) =? length (i_hist i)) && sspec_ok (i_in i) (snd o).
